@@ -66,6 +66,9 @@ def run_prop(prop, tier, seed, replay=None, make_cases=None):
             seen[k] = seen.get(k, 0) + 1
         return out
     cases = make_cases(rng, n) if make_cases else systematic(n)
+    for i, c in enumerate(cases):
+        if i % 7 == 5 and c.trait_name:
+            c.trait_prefix = 'self::'       # the blocks name the trait through a two-segment path
     if prop == 'C01':
         for i, c in enumerate(cases):
             c.with_type = (i % 2 == 0)      # every other case: the trait also has an associated type item
